@@ -505,6 +505,23 @@ func vfC04honest(c *hx.Ctx) {
 			}
 		}
 	}
+	// datagrams lost on the wire and rebuilt from parity later reach the core marked "recovered by FEC": they are older than
+	// what arrived since; the peer's window must stay the one last advertised on the wire (a reader that stalls: the window
+	// shrinks from datagram to datagram, so a stale one is larger)
+	fecFates := []int{vfDeliver, vfDrop, vfFecLate}
+	for _, mode := range []string{"session", "update"} {
+		for _, w := range []int{2, 4} {
+			for _, nc := range []int{0, 1} {
+				for _, after := range []int{0, 1, 2} {
+					cf := vfSimCfg{Mode: mode, Stream: true, SndWnd: [2]int{32, 32}, RcvWnd: [2]int{32, w}, Mtu: 40, NoDelay: [4]int{1, 20, 2, nc},
+						Delay: 10, HorizonMs: 600000, PauseAfter: after, PauseMs: 900, K: K + 2, Fates: fecFates}
+					cf.Writes[0] = []int{16, 16, 16, 16, 16, 16, 16, 16, 16, 16}
+					cf.Writes[1] = []int{16}
+					grid = append(grid, vfNamedCfg{fmt.Sprintf("fec-recovered/%s/rcv_wnd=%d/nc=%d/pause-after=%d", mode, w, nc, after), cf})
+				}
+			}
+		}
+	}
 	vfRunGrid(c, grid, "C04:")
 }
 
